@@ -343,7 +343,8 @@ impl<'a> Gen<'a> {
 		(ProbeEffectBuilder(ProbeEffect { g, c, log: log.clone(), expected_dt: self.dt }), MFx { g: g as f64, c: c as f64, log })
 	}
 	fn track_builder(&mut self, sends: &[MSend]) -> (TrackBuilder, Vec<MFx>, Vec<(usize, f32)>, f32) {
-		let vol = if self.r.chance(0.4) { 0.0 } else { self.r.f32_in(-18.0, 3.0) };
+		// (also tracks at or below -60 dB: silent, but their sounds, effects, children and the children's sends still run)
+		let vol = if self.r.chance(0.4) { 0.0 } else if self.r.chance(0.12) { *self.r.pick(&[-60.0f32, -80.0, -61.0]) } else { self.r.f32_in(-18.0, 3.0) };
 		let mut b = TrackBuilder::new().volume(Decibels(vol));
 		let mut fxs = vec![];
 		for _ in 0..self.r.below(3) {
@@ -549,7 +550,7 @@ fn one_case(ctx: &mut Ctx, idx: u64, r: &mut Rng) {
 					7 if alive > 0 => {
 						// set a track volume (instant)
 						let mut k = g.r.below(alive as u64) as usize;
-						let v = g.r.f32_in(-18.0, 3.0);
+						let v = if g.r.chance(0.12) { *g.r.pick(&[-60.0f32, -80.0]) } else { g.r.f32_in(-18.0, 3.0) };
 						with_kth(&mut model.tracks, &mut k, &mut |t: &mut MTrack| {
 							if let Some(h) = t.handle.as_mut() {
 								h.set_volume(Decibels(v), instant());
